@@ -422,6 +422,8 @@ pub struct RunArgs {
     pub shard: u64,
     pub nshards: u64,
     pub modules: Option<Vec<String>>,
+    /// modules left out of this run (see the crash triage of the runner)
+    pub skip_modules: Vec<String>,
     pub readback_every: usize,
     pub replay: Option<(String, usize, u64)>,
     /// skip serialisation operations (their dependencies trip Miri's symbolic alignment check)
@@ -454,6 +456,7 @@ impl RunArgs {
             shard: num("--shard", 0),
             nshards: num("--nshards", 1).max(1),
             modules: get("--modules").map(|m| m.split(',').map(|s| s.to_owned()).collect()),
+            skip_modules: get("--skip-modules").map(|m| m.split(',').map(|s| s.to_owned()).collect()).unwrap_or_default(),
             readback_every: num("--readback-every", 1) as usize,
             no_serde: args.iter().any(|a| a == "--no-serde"),
             threads: args.iter().any(|a| a == "--threads"),
